@@ -55,4 +55,24 @@ def bounded(check):
                        replay_cmd="/venv/bin/python %s %s %s" % (os.path.join(here, "bounded", "dr_small_scope.py"), check.repo.root, " ".join(args))),
                   open(path, "w"), indent=1)
         out["replay"] = path
-    return [out]
+    outs = [out]
+    p2 = subprocess.run(["/venv/bin/python", os.path.join(here, "bounded", "fault_attribution.py"), check.repo.root],
+                        stdout=subprocess.PIPE, stderr=subprocess.PIPE, universal_newlines=True, timeout=3000)
+    line2 = (p2.stdout.strip().splitlines() or ["{}"])[-1]
+    try:
+        info2 = json.loads(line2)
+    except ValueError:
+        info2 = {"error": (p2.stderr or p2.stdout)[-400:]}
+    out2 = dict(name="a fault is recorded, with a traceback, against its raiser or a spec it implements / is built on and nothing else; skips only with "
+                     "skip recording; non-dependents keep their value", level="bounded",
+                bound="a spec world of 5 datasources, 3 specs (one multi-output), 3 parsers, 2 combiners x 8 fault positions x 3 fault kinds x skip "
+                      "recording on / off + one failing element of a multi-output parser",
+                result=info2, violation=(p2.returncode == 1), error=(p2.returncode not in (0, 1)))
+    if p2.returncode == 1:
+        os.makedirs(os.path.join(here, "replays"), exist_ok=True)
+        path2 = os.path.join(here, "replays", "C03-bounded-attribution.json")
+        json.dump(dict(obligation="bounded:fault-attribution", witness=info2,
+                       replay_cmd="/venv/bin/python %s %s" % (os.path.join(here, "bounded", "fault_attribution.py"), check.repo.root)), open(path2, "w"), indent=1)
+        out2["replay"] = path2
+    outs.append(out2)
+    return outs
